@@ -315,16 +315,20 @@ def strategy_rule(ctx, r, pfx="C13"):
         sites = [(c, STRATS[n]) for c in f.calls() for n in c.names if n in STRATS]
         if not sites:
             continue
-        eb = ExprBuilder(f)
-        sw = cond_switches(f, lambda e: is_call(e, MLWM), eb)
+        # value table: which constructors run when the predicate says yes / no (wherever its answer travels: a branch,
+        # a strategy enum computed first, a flag)
+        from ..flow import table, I
+        execd = {}
+        for row, sx in table(facts, f, calls={"Searcher::multi_line_with_matcher": [I(0), I(1)]}):
+            execd[row[("call", "Searcher::multi_line_with_matcher")][1]] = sx.exec_blocks
+        asked = f.calls_to(MLWM)
         for c, want in sites:
             seen += 1
             key = "%s|%s" % (f.path, c.path.split("::")[-2])
-            if not sw:
+            if not asked:
                 r.bad(key, "%s constructs %s without testing multi_line_with_matcher" % (f.path, c.path), fn=f, loc=c.loc)
                 continue
-            esc = guarded(f, [c.bb], sw, polarity=want)
-            if esc:
+            if c.bb in execd[0 if want else 1]:
                 r.bad(key, "%s at %s is reachable without multi_line_with_matcher(..) == %s"
                       % (c.path, c.loc, str(want).lower()), fn=f, loc=c.loc)
             else:
